@@ -363,6 +363,70 @@ Definition promo_sched : scheduler promo decision (option Z) :=
      on_error := fun s i => {| p_active := remove_Z i (p_active s); p_paused := p_paused s |};
      spec_ok := fun s i => mem_Z i (p_paused s) |}.
 
+(* ==== layer 2a': the promotion-type rung system (asynchronous Hyperband) =============== *)
+(* hyperband.py on_trial_result / _promote_trial + hyperband_promotion.py (PromotionRungSystem; also
+   PASHA, RUSH-promotion, cost-promotion, which only change WHICH eligible entry is promotable):
+   a running trial has a next milestone; at resource >= max_t the decision is STOP (nothing is
+   registered), at the milestone the trial is registered in that rung as not promoted and PAUSEd,
+   before it CONTINUEs; a report of a non-running trial gets the recorded decision (PAUSE after
+   on_trial_remove).  on_task_schedule may only return an entry that is registered and not yet
+   promoted in a rung below max_t; it is marked as promoted and the trial runs to the next rung
+   level.  The choice among the eligible entries (quantile rule, PASHA cap, RUSH thresholds, cost)
+   and the bracket of a new trial (= its first milestone) are oracle inputs (property C04). *)
+Record promo2 := {
+  q_levels : list Z;                 (* rung levels, increasing *)
+  q_max_t : Z;
+  q_ents : list (Z * Z * bool);      (* rung entries: (level, trial, was_promoted) *)
+  q_run : list (Z * Z) }.            (* _running: trial -> milestone *)
+
+Fixpoint q_lookup (l : list (Z * Z)) (i : Z) : option Z :=
+  match l with [] => None | (j, m) :: r => if Z.eqb j i then Some m else q_lookup r i end.
+Definition q_remove (l : list (Z * Z)) (i : Z) : list (Z * Z) := filter (fun p => negb (Z.eqb (fst p) i)) l.
+Fixpoint q_next (levels : list Z) (max_t lv : Z) : Z :=
+  match levels with [] => max_t | l :: r => if Z.ltb lv l then l else q_next r max_t lv end.
+Definition q_is_unprom (lv t : Z) (e : Z * Z * bool) : bool :=
+  Z.eqb (fst (fst e)) lv && Z.eqb (snd (fst e)) t && negb (snd e).
+Fixpoint q_mark (ents : list (Z * Z * bool)) (lv t : Z) : list (Z * Z * bool) :=
+  match ents with
+  | [] => []
+  | e :: r => if q_is_unprom lv t e then (fst e, true) :: r else e :: q_mark r lv t
+  end.
+
+Definition promo2_on_result (s : promo2) (i : Z) (res : Z) : promo2 * decision * option Z :=
+  match q_lookup (q_run s) i with
+  | None => (s, PAUSE, None)
+  | Some ms =>
+      if Z.leb (q_max_t s) res then
+        ({| q_levels := q_levels s; q_max_t := q_max_t s; q_ents := q_ents s; q_run := q_remove (q_run s) i |}, STOP, None)
+      else if Z.leb ms res then
+        ({| q_levels := q_levels s; q_max_t := q_max_t s;
+            q_ents := if mem_Z ms (q_levels s) then (ms, i, false) :: q_ents s else q_ents s;
+            q_run := q_remove (q_run s) i |}, PAUSE, None)
+      else (s, CONTINUE, None)
+  end.
+
+(* payload: (entry proposed for promotion, first milestone of a new trial) *)
+Definition promo2_suggest (s : promo2) (nid : Z) (g : option (Z * Z) * Z) : promo2 * suggestion :=
+  let fresh := ({| q_levels := q_levels s; q_max_t := q_max_t s; q_ents := q_ents s;
+                   q_run := (nid, snd g) :: q_run s |}, SNew) in
+  match fst g with
+  | Some (lv, t) =>
+      if existsb (q_is_unprom lv t) (q_ents s) && Z.ltb lv (q_max_t s) then
+        ({| q_levels := q_levels s; q_max_t := q_max_t s; q_ents := q_mark (q_ents s) lv t;
+            q_run := (t, q_next (q_levels s) (q_max_t s) lv) :: q_run s |}, SResume t)
+      else fresh
+  | None => fresh
+  end.
+
+Definition promo2_sched : scheduler promo2 Z (option (Z * Z) * Z) :=
+  {| on_result := promo2_on_result; suggest := promo2_suggest; removables := fun s => (s, []);
+     on_error := fun s i => {| q_levels := q_levels s; q_max_t := q_max_t s; q_ents := q_ents s;
+                               q_run := q_remove (q_run s) i |};
+     spec_ok := fun s i => existsb (fun e => Z.eqb (snd (fst e)) i && negb (snd e)) (q_ents s) |}.
+
+Definition promo2_0 (levels : list Z) (max_t : Z) : promo2 :=
+  {| q_levels := levels; q_max_t := max_t; q_ents := []; q_run := [] |}.
+
 (* ==== layer 2b: synchronous Hyperband =========================================== *)
 (* A bracket: current rung = slots (trial id, metric) + first free position; the
    rungs above are given by (size, level). *)
